@@ -338,7 +338,9 @@ func (v Value) String() string {
 		return "nil"
 	case TypeBool:
 		return fmt.Sprint(v.Bool())
-	case TypeInt32, TypeUint32, TypeInt8, TypeUint8, untypedInt:
+	case untypedInt:
+		return fmt.Sprint(int32(int64(v.num))) // an untyped number that was never given a type prints as an int
+	case TypeInt32, TypeUint32, TypeInt8, TypeUint8:
 		return fmt.Sprint(int(v.num))
 	case TypeFloat64:
 		return fmt.Sprint(v.num)
@@ -621,6 +623,7 @@ func (v Value) opBitXor(b Value) Value {
 }
 
 func (v Value) opLt(b Value) Value {
+	v, b = v.adopt(b.t), b.adopt(v.t)
 	if v.t != TypeString {
 		return Bool(v.num < b.num)
 	}
@@ -628,6 +631,7 @@ func (v Value) opLt(b Value) Value {
 }
 
 func (v Value) opLte(b Value) Value {
+	v, b = v.adopt(b.t), b.adopt(v.t)
 	if v.t != TypeString {
 		return Bool(v.num <= b.num)
 	}
@@ -637,6 +641,7 @@ func (v Value) opLte(b Value) Value {
 func (v Value) opNeq(b Value) Value { return Bool(!v.Equals(b)) }
 
 func (v Value) Equals(b Value) bool {
+	v, b = v.adopt(b.t), b.adopt(v.t)
 	switch {
 	case v.t == TypeBool:
 		return v.num == b.num
